@@ -14,7 +14,7 @@ chk("C07","exploration",
  "Trusted: the application model's call log and gate monitor. Bounded by the stated header/body alphabets.",
  "bounded-exhaustive enumeration of the request product against a call-log monitor","DESIGN.md 3 C07")
 chk("C08","model_checking",
- "2-3 real request goroutines on one Actor run under a cooperative scheduler that owns every Database/Transport/callback call and models application locks as blocking resources; all interleavings of 2-thread scenarios (visited-state pruning) and all interleavings with <=2 (quick) / <=3 (thorough) preemptions of 3-thread scenarios are executed on the real code; oracle: no deadlock, all return, final collections equal a sequential order's as multisets, duplicates processed once.",
+ "2-3 real request goroutines on one Actor run under a cooperative scheduler that owns every Database/Transport/callback call and models application locks as blocking resources; all interleavings of 2-thread scenarios (visited-state pruning) and all interleavings with <=2 (quick) / <=3 (thorough) preemptions of 3-thread scenarios are executed on the real code; oracle: no deadlock, all return, final collections equal a sequential order's as multisets, duplicates processed once; plus a supplementary free-running -race pass of the same scenarios.",
  "Trusted: scheduler, state-key soundness argument (DESIGN 2.1), application locks are mutual exclusion; interleaving granularity = seam calls.",
  "stateless model checking of the implementation: exhaustive schedule enumeration under a controlled scheduler with preemption bounding and state-key pruning","DESIGN.md 3 C08")
 chk("C09","fault_enumeration",
